@@ -110,6 +110,12 @@ def gen_case(seed, tier='quick', index=1):
             ops.append({'op': 'clock_jump',
                         'delta': rng.choice([86400, -86400, 3.15e7, 1e9])})
         t = names_of[a] if a in names_of and rng.random() < 0.3 else a
+        if t != a and rng.random() < 0.2:
+            # another capitalisation of the name (the library treats it as
+            # an unknown address; it must not start to remember it)
+            v = rng.choice([t.upper(), t.title(), t.swapcase()])
+            if v not in world['names'] and v not in world['cells']:
+                t = v
         if with_sets and inputs and rng.random() < 0.2:
             # an input changed behind the evaluators' backs: through the
             # model itself or through one particular evaluator
